@@ -2,7 +2,8 @@
 _TB = ('trusted: g++ 12.2 / clang 14 code generation (built with -frounding-math -ffp-contract=off), this CPU (Sapphire Rapids) as executor of every x86 branch, '
        'the scalar reference models written from the property statement, glibc libm where the statement names the C library; '
        'ARM/NEON, MSVC/ICPX and AVX10 branches are not reachable here and not claimed')
-_T = 'runtime reference-model monitor over exhaustive/lattice/random inputs x ladder cover of feature-macro configurations (g++/clang++), + ASan/UBSan builds and trap capture'
+_T = ('runtime reference-model monitor over exhaustive/lattice/random inputs x ladder cover of feature-macro configurations x build dimension '
+      '(g++/clang++, language levels selected by the compiler-/__cplusplus-conditioned rungs, -O0/-O2/-O3 -DNDEBUG, default FP flags), + ASan/UBSan builds, trap capture and CPU-time watchdogs')
 
 
 def _c(text, ref, technique=_T, note=_TB):
@@ -15,7 +16,7 @@ CLAIMED = {
     'C02': _c('Integer and float comparisons in every configuration of the cover: exact boolean per lane against the C++ scalar comparison (NaN, signed zeros, equal-high-half 64-bit pairs, sign boundaries), '
               'masks observed through Vector(mask) and cross-checked with count/any/all/none.', 'C02'),
     'C03': _c('All 40 mask types: every 2^N pattern for N<=16 (pairs exhaustive for N<=8), structured+random for N=32/64; every operator, insert<I>(m,b) for every I and both b, extract<I>, conversions; '
-              'results observed three ways (Vector(mask), count/any/all/none, ==) so unused k-register bits are visible.', 'C03'),
+              'results observed three ways (Vector(mask), count/any/all/none, ==) so unused k-register bits are visible; construction from arrays embedded between other data and re-construction after an element write.', 'C03'),
     'C04': _c('Bitwise ops; shifts by every amount 0..bits (scalar, per-lane vector with different amounts per lane, compile-time S for every S); rotations by every amount incl. negative, >= bits, +-2^31, +-2^40, LLONG_MIN/MAX and '
               'compile-time S up to 4*bits+1; 8/16-bit exhaustive in values; UBSan shift reports in AVEL are violations.', 'C04'),
     'C05': _c('div, /, %, /=, %= against C++ truncating division incl. identity q*y+r==x; division-specific pairs (multiples +-1 near range ends, q*d+r); zero divisors planted in every other lane position with SIGFPE capture; '
@@ -25,7 +26,7 @@ CLAIMED = {
     'C07': _c('blend/keep/clear/negate with all mask patterns, min/max/minmax/clamp(lo<hi), abs/neg_abs, average (toward zero, __int128 model), midpoint (std::midpoint model) for ints; floats: bit-pattern rules for '
               'blend/keep/clear/abs/neg_abs/negate/copysign, value rule for min/max/clamp on non-NaN inputs.', 'C07'),
     'C08': _c('load/aligned_load/store/aligned_store for every n in 0..width+2 and large n, run-time and every compile-time N, unaligned offsets, sentinel-checked destinations, gather/scatter with negative/repeated indices, '
-              'array round trip against the raw primitive, extract/insert for every lane; trap capture turns faults into records.', 'C08'),
+              'array round trip against the raw primitive, extract/insert for every lane; in-scope flows (typed element stores, then load; store, then typed reads) so that reordered or stale accesses show; trap capture turns faults into records.', 'C08'),
     'C09': _c('Footprint monitor: guard arena with PROT_NONE pages flush against the addressed range on either side (n==0: pointer inside the inaccessible page), sentinel re-check of the data pages, wild indices in inactive gather/scatter lanes; '
               'plus exact-size heap blocks under AddressSanitizer. Executed on real silicon so hardware fault suppression of masked moves is what is observed.', 'C09',
               technique='guard-page + sentinel monitor with signal capture, AddressSanitizer on exact-size heap blocks, x configuration cover'),
@@ -44,17 +45,17 @@ CLAIMED = {
               technique='differential runtime monitor (scalar overload vs vector lanes) + exact mixed-sign comparison model, x configuration cover, + UBSan'),
     'C17': _c('Every rule-derived mandatory conversion (identity, signed<->unsigned for each integer vector/mask type) plus every other convert<To,From> found by scanning the current tree: static_cast per lane, converting constructors agree, '
               'avel::bit_cast byte-compared, mask truth values per lane; a missing mandatory specialisation shows as a link failure and is reported.', 'C17'),
-    'C18': _c('Allocator histories (random + enumerated + container workloads) for 7 element sizes x 6 alignments x 3 implementations (mm_malloc / aligned_alloc / over-allocation) under four monitors: shadow map of live ranges, '
+    'C18': _c('Allocator histories (random + enumerated + container workloads) for 7 element sizes x 6 alignments x 3 implementations (mm_malloc / aligned_alloc / over-allocation) (plus scalar-only macro sets and -O3 -DNDEBUG builds) under four monitors: shadow map of live ranges, '
               'full-range pattern integrity, malloc event log by interposition (containment, exact frees, conservation, no leak), and ASan/LSan/UBSan builds.', 'C18',
               technique='history monitors (shadow map, pattern integrity, interposed malloc/free event log with conservation check) + ASan/LSan/UBSan'),
     'C19': _c('Observed toolchain executions over the configuration matrix (each macro, chain prefixes, sub-extensions with VL/BW, explicit and AUTO_DETECT, g++/clang++, C++11..20), a type-system reporter built and run per configuration and '
               'compared with the documented table, and an API closure program (SFINAE probe + odr-use + smoke run of ~190 operations per type). Exploration over configurations, not a sanitizer result. One open known finding (fmod family).', 'C19',
               technique='compile/link/run exploration over the configuration lattice with parsed diagnostics, run-time type-system report vs documented table, SFINAE API-closure probe'),
     'C20': _c('prefetch_read/prefetch_write for every level and overload with pointers at every offset of a line next to, straddling and inside inaccessible pages, null/misaligned/top-of-address-space pointers, n from 0 to 3 pages; '
-              'signals captured, read-only arena + snapshot compare; line sizes 64/32-128/128, -O0/-O2, g++/clang++, ASan build.', 'C20',
+              'and literal (compile-time-constant) counts; signals captured, a CPU-time watchdog per call turns non-termination into a hang record, read-only arena + snapshot compare; line sizes 64/32-128/128/32, -O0/-O2, g++/clang++, ASan build.', 'C20',
               technique='guard-page / read-only-page monitor with signal capture and memory snapshot comparison, + ASan'),
 }
 NOT_APPLICABLE = {}
 NOTES = ('All checks are runtime monitors/sanitizers over executions of the real headers compiled from /repo/include (current working tree; build cache keyed by a hash of the tree). '
          'bin/vcheck check <id> exits 0 (held; KNOWN-FINDING lines for entries of known_findings.json with status open), 1 (VIOLATION lines with replay files), 2 (inconclusive harness failure). '
-         'No hooks in AVEL are needed. 29 genuine defects were repaired as "fix:" commits in /repo (listed as fixed in known_findings.json); 3 entries remain open.')
+         'No hooks in AVEL are needed. 30 genuine defects were repaired as "fix:" commits in /repo (listed as fixed in known_findings.json); 3 entries remain open.')
